@@ -687,6 +687,16 @@ func (u *Unit) callFunc(call *ast.CallExpr, f *types.Func, recv *Val, args []Val
 	if con != nil && con.Inline && fi != nil && !u.inSpec {
 		return u.inlineFunc(fi, recv, args, st)
 	}
+	if con == nil && fi != nil && !u.inSpec && u.autoInlinable(fi) {
+		// a small helper without a contract is executed in place (instead of havocking its results): extracting a
+		// few statements into a helper function does not change what is proved about the caller
+		savedNS := u.noSafety
+		u.noSafety = true
+		res := u.inlineFunc(fi, recv, args, st)
+		u.noSafety = savedNS
+		u.reg.note("call of " + fi.Key + " (no contract, small, not recursive) executed in place")
+		return res
+	}
 	if con == nil && fi != nil && u.inSpec {
 		// a specification that calls a function without (or with a stale) contract: uninterpreted
 		u.reg.note("specification calls " + funcKeyOfObj(f) + " which has no contract: treated as an uninterpreted function of its arguments and the heap epoch")
@@ -1075,4 +1085,54 @@ func (u *Unit) checkCalleeFrame(pre *State, f *types.Func, con *Contract, rv *ro
 		return
 	}
 	u.oblige(pre, fmt.Sprintf("%s#frame", u.site(call, "call#"+funcKeyOfObj(f))), "frame", and(conj...), u.con.Props, nil, "everything "+funcKeyOfObj(f)+" may write lies inside the assigns clause", call)
+}
+
+// autoInlinable: a module function without contract that is small, not generic, not (mutually) recursive
+// on the current inline stack, and free of constructs outside the subset
+func (u *Unit) autoInlinable(fi *FuncInfo) bool {
+	if fi.Decl == nil || fi.Decl.Body == nil || fi.Decl.Type.TypeParams != nil || u.inlineDepth >= 2 || u.inCommute {
+		return false
+	}
+	if fi.Obj != nil && hasTypeParams(fi.Obj) {
+		return false
+	}
+	if u.fi != nil && fi.Key == u.fi.Key {
+		return false
+	}
+	for _, k := range u.inlineStack {
+		if k == fi.Key {
+			return false
+		}
+	}
+	if v, ok := u.prog.inlinable[fi.Key]; ok {
+		return v
+	}
+	n := 0
+	ok := true
+	ast.Inspect(fi.Decl.Body, func(x ast.Node) bool {
+		switch x := x.(type) {
+		case ast.Stmt:
+			n++
+			switch x.(type) {
+			case *ast.DeferStmt, *ast.GoStmt, *ast.SelectStmt, *ast.SendStmt, *ast.LabeledStmt:
+				ok = false
+			case *ast.BranchStmt:
+				if x.(*ast.BranchStmt).Label != nil {
+					ok = false
+				}
+			}
+		case *ast.CallExpr:
+			// self recursion
+			if c := calleeOf(fi.Pkg.TypesInfo, x); c != nil && fi.Obj != nil && c.Origin() == fi.Obj.Origin() {
+				ok = false
+			}
+		}
+		return true
+	})
+	res := ok && n <= 30
+	if u.prog.inlinable == nil {
+		u.prog.inlinable = map[string]bool{}
+	}
+	u.prog.inlinable[fi.Key] = res
+	return res
 }
